@@ -163,12 +163,14 @@ func cmdSimple(fs *flag.FlagSet, args []string) {
 				desc := fmt.Sprintf("swrite %s %d %d %s", hx(h), off, cnt, hx(data))
 				var rep nfstypes.WRITE3res
 				if !s.guarded(desc, func() {
-					rep = s.srv.NFSPROC3_WRITE(nfstypes.WRITE3args{File: mkfh3(h), Offset: nfstypes.Offset3(off), Count: nfstypes.Count3(cnt), Stable: nfstypes.FILE_SYNC, Data: data})
+					rep = s.srv.NFSPROC3_WRITE(nfstypes.WRITE3args{File: mkfh3(h), Offset: nfstypes.Offset3(off), Count: nfstypes.Count3(cnt), Stable: nfstypes.Stable_how(r.Intn(3)), Data: data})
 				}) {
 					break
 				}
 				if rep.Status == 0 {
-					emit("%s => 0 %d", desc, rep.Resok.Count)
+					// the level reported is part of the reply: SimpleNFS always answers FILE_SYNC,
+					// whatever stability the client asked for
+					emit("%s => 0 %d %d", desc, rep.Resok.Count, rep.Resok.Committed)
 					if off+uint64(cnt) > cur {
 						sizes[hx(h)] = off + uint64(cnt)
 					}
@@ -261,10 +263,11 @@ func cmdSimpleConc(fs *flag.FlagSet, args []string) {
 					data[j] = byte(16*(i+1) + j%7)
 				}
 				descs[i] = fmt.Sprintf("swrite %s %d %d %s", hx(h), off, cnt, hx(data))
+				how := nfstypes.Stable_how(r.Intn(3))
 				fns[i] = func() string {
-					rep := srv.NFSPROC3_WRITE(nfstypes.WRITE3args{File: mkfh3(h), Offset: nfstypes.Offset3(off), Count: nfstypes.Count3(cnt), Stable: nfstypes.FILE_SYNC, Data: data})
+					rep := srv.NFSPROC3_WRITE(nfstypes.WRITE3args{File: mkfh3(h), Offset: nfstypes.Offset3(off), Count: nfstypes.Count3(cnt), Stable: how, Data: data})
 					if rep.Status == 0 {
-						return fmt.Sprintf("0 %d", rep.Resok.Count)
+						return fmt.Sprintf("0 %d %d", rep.Resok.Count, rep.Resok.Committed)
 					}
 					return fmt.Sprintf("%d", rep.Status)
 				}
